@@ -37,7 +37,7 @@ struct refm {
         uint8_t cb_pending;    /* write vars: 0 need parse, 1 waiting for callback, 2 callback done; read vars: 1 waiting */
         uint8_t term;          /* terminator of the last parsed argument: 0 end, 1 comma */
         uint8_t wsize;         /* write_size the variable write callback must be told */
-        uint16_t args_off, args_len, arg_pos;
+        uint16_t args_off, args_len, arg_pos, line_n;
         uint16_t text_len;
         uint8_t text[W_TEXT];
 };
@@ -48,7 +48,8 @@ struct mon {
         /* input lexer */
         uint16_t line_len;
         uint8_t line_nonblank;
-        uint8_t pad0;
+        uint8_t doomed;        /* reason code: every completion of the current line is answered ERROR */
+        uint8_t doom_crlf, padd[3];
         /* command reference + fifo */
         struct refm c;
         struct fifo fc;
@@ -91,6 +92,7 @@ struct wint {
         /* transient (not state) */
         int depth;
         int last_ret;
+        uint8_t raw[512]; int raw_n; int out_mark;
         uint64_t api_hash, unlock_hash;
         int api_hash_valid, unlock_hash_valid;
         uint8_t out[1 << 16]; int out_n;
@@ -140,12 +142,15 @@ int  flex_eq(const uint8_t *pat, int plen, const uint8_t *data, size_t dlen);
 
 /* ---- reference (ref.c) ---- */
 void ref_on_line(const uint8_t *line, int len);
+int  ref_prefix_doomed(const uint8_t *line, int len);
+void ref_on_doomed_line(int reason, int crlf);
 void ref_begin_event(int ev);           /* initialise M.e for W.ev[ev] and run silent steps */
 void ref_line_completed(void);
 int  cmd_enabled(int i);
 extern struct mon *M;
 void evt_observable(void);              /* mon.c: an observable of the current event happened */
 void evt_advance(void);
+void evt_maybe_complete(void);
 void hold_implicit_request(int stbit);
 
 int  ref_expect_handler(int evt, int kind, int cmd, const uint8_t *data, size_t size, size_t args_num, size_t max, int *nonterm_left);
